@@ -131,6 +131,11 @@ type Case struct {
 	// what hosts the node in the graph-hosted runs: "" = a Graph, workflow = a Workflow, nested = a Graph that is
 	// itself a node of an outer Graph
 	GraphKind string `json:"graph_kind,omitempty"`
+	// the streamed form with MORE THAN ONE consumer (the stream is copied; every consumer concatenates the frames
+	// it is given): "" = not exercised, branch = tools node -> branch with an ordinary condition -> ordinary node
+	// (the ReAct shape), fanout = tools node -> two ordinary nodes, copy = StreamReader.Copy(2) of ToolsNode.Stream,
+	// each copy concatenated
+	Fan string `json:"fan,omitempty"`
 }
 
 // the assistant message as the chunks of a model's output stream (they concatenate to c.message())
@@ -277,6 +282,10 @@ func (c *Case) nodeOptions(rc *recorder) ([]compose.ToolsNodeOption, error) {
 
 // the node options as call options of a graph that hosts the node under the key "tools"
 func (c *Case) graphOptions(nopts []compose.ToolsNodeOption) []compose.Option {
+	return c.graphOptionsIn(nopts, c.GraphKind == "nested")
+}
+
+func (c *Case) graphOptionsIn(nopts []compose.ToolsNodeOption, nested bool) []compose.Option {
 	if len(nopts) == 0 {
 		return nil
 	}
@@ -287,7 +296,7 @@ func (c *Case) graphOptions(nopts []compose.ToolsNodeOption) []compose.Option {
 	for i, o := range nopts {
 		g := compose.WithToolsNodeOption(o)
 		if c.GraphOpts == "designated" || (c.GraphOpts == "mixed" && i%2 == 0) {
-			if c.GraphKind == "nested" {
+			if nested {
 				g = g.DesignateNodeWithPath(compose.NewNodePath("inner", "tools"))
 			} else {
 				g = g.DesignateNode("tools")
@@ -818,6 +827,7 @@ type RunObs struct {
 	CCls   string  `json:"ccls,omitempty"`  // none | msgs | err : framework concatenation of the received chunks
 	CMsgs  []*Msg  `json:"cmsgs,omitempty"` // (nil entry = nil message)
 	CErr   int     `json:"cerr,omitempty"`
+	CAgain string  `json:"cagain,omitempty"` // "" = concatenating the same frames a second time (what a second consumer of a copied stream does) gave the same list; otherwise what it gave
 	Pi     []int   `json:"pi"`
 	Exec   []xcall `json:"exec"`
 	Leaked int     `json:"leaked,omitempty"` // tool stream producers still blocked after the run
@@ -944,6 +954,21 @@ func (o *RunObs) setConcat(raw [][]*schema.Message) {
 		o.CCls, o.CErr = "err", classify(err)
 	default:
 		o.CCls, o.CMsgs = "msgs", msgsOf(out)
+		// the frames of a copied stream are shared by its consumers: a second consumer concatenates the very
+		// same frames, after the first one did
+		var out2 []*schema.Message
+		var err2 error
+		p2 := lib.Recover(func() {
+			out2, err2 = compose.VerifConcatStreamReader(schema.StreamReaderFromArray(raw))
+		})
+		switch {
+		case p2 != nil:
+			o.CAgain = "panic: " + short(fmt.Sprint(p2))
+		case err2 != nil:
+			o.CAgain = "error: " + short(err2.Error())
+		case !msgsEqual(msgsOf(out2), o.CMsgs):
+			o.CAgain = js(msgsOf(out2))
+		}
 	}
 }
 
@@ -1245,6 +1270,222 @@ func runOne(c *Case, mode, host string, entry ...string) (o RunObs, peer *RunObs
 		rc.peer.settle(peer, pc)
 	}
 	return
+}
+
+// The streamed form with several consumers: the node's output stream is copied (by the graph, for a
+// branch condition and the selected node, or for two successors; or by the caller, StreamReader.Copy)
+// and every consumer concatenates the frames it is given. Each consumer must receive the list Invoke
+// returns. One observation per consumer (mode concat), all with the run's executions.
+func runFan(c *Case) []RunObs {
+	host := "graph"
+	if c.Fan == "copy" {
+		host = "standalone"
+	}
+	mk := func(consumer string) RunObs {
+		return RunObs{Mode: "concat", Host: host, Entry: "fan:" + c.Fan + ":" + consumer}
+	}
+	rc := &recorder{c: c}
+	ctx := context.Background()
+	one := mk("all")
+	tn, err := buildNode(rc)
+	if err != nil {
+		if anyBad(c.Tools) {
+			one.Class, one.Err, one.ErrMsg = "err", classify(err), short(err.Error())
+		} else {
+			one.Class, one.ErrMsg = "setup", short(err.Error())
+		}
+		return []RunObs{one}
+	}
+	msg := c.message()
+	nopts, err := c.nodeOptions(rc)
+	if err != nil {
+		one.Class, one.ErrMsg = "setup", short(err.Error())
+		return []RunObs{one}
+	}
+	gopts := c.graphOptionsIn(nopts, false)
+
+	type view struct {
+		who  string
+		msgs []*Msg
+	}
+	var mu sync.Mutex
+	var views []view
+	see := func(who string, in []*schema.Message) {
+		ms := msgsOf(in) // what the consumer sees when it is handed the list
+		mu.Lock()
+		views = append(views, view{who, ms})
+		mu.Unlock()
+	}
+	ident := func(who string) *compose.Lambda {
+		return compose.InvokableLambda(func(_ context.Context, in []*schema.Message) ([]*schema.Message, error) {
+			see(who, in)
+			return in, nil
+		})
+	}
+	keyed := func(who string) *compose.Lambda {
+		return compose.InvokableLambda(func(_ context.Context, in []*schema.Message) (map[string]any, error) {
+			see(who, in)
+			return map[string]any{who: in}, nil
+		})
+	}
+
+	var run func() error
+	switch c.Fan {
+	case "branch":
+		g := compose.NewGraph[*schema.Message, []*schema.Message]()
+		err = g.AddToolsNode("tools", tn)
+		if err == nil {
+			err = g.AddLambdaNode("next", ident("selected-node"))
+		}
+		if err == nil {
+			err = g.AddLambdaNode("other", ident("other-node"))
+		}
+		if err == nil {
+			err = g.AddEdge(compose.START, "tools")
+		}
+		if err == nil {
+			err = g.AddBranch("tools", compose.NewGraphBranch(func(_ context.Context, in []*schema.Message) (string, error) {
+				see("branch-condition", in)
+				return "next", nil
+			}, map[string]bool{"next": true, "other": true}))
+		}
+		if err == nil {
+			err = g.AddEdge("next", compose.END)
+		}
+		if err == nil {
+			err = g.AddEdge("other", compose.END)
+		}
+		var r compose.Runnable[*schema.Message, []*schema.Message]
+		if err == nil {
+			r, err = g.Compile(ctx)
+		}
+		run = func() error {
+			sr, err := r.Stream(ctx, msg, gopts...)
+			if err != nil {
+				return err
+			}
+			out, err := compose.VerifConcatStreamReader(sr)
+			if err != nil {
+				return err
+			}
+			see("output", out)
+			return nil
+		}
+	case "fanout":
+		var r compose.Runnable[*schema.Message, map[string]any]
+		if c.GraphKind == "workflow" {
+			wf := compose.NewWorkflow[*schema.Message, map[string]any]()
+			wf.AddToolsNode("tools", tn).AddInput(compose.START)
+			wf.AddLambdaNode("a", ident("successor-a")).AddInput("tools")
+			wf.AddLambdaNode("b", ident("successor-b")).AddInput("tools")
+			wf.End().AddInput("a", compose.ToField("successor-a")).AddInput("b", compose.ToField("successor-b"))
+			r, err = wf.Compile(ctx)
+		} else {
+			g := compose.NewGraph[*schema.Message, map[string]any]()
+			err = g.AddToolsNode("tools", tn)
+			if err == nil {
+				err = g.AddLambdaNode("a", keyed("successor-a"))
+			}
+			if err == nil {
+				err = g.AddLambdaNode("b", keyed("successor-b"))
+			}
+			for _, e := range [][2]string{{compose.START, "tools"}, {"tools", "a"}, {"tools", "b"}, {"a", compose.END}, {"b", compose.END}} {
+				if err == nil {
+					err = g.AddEdge(e[0], e[1])
+				}
+			}
+			if err == nil {
+				r, err = g.Compile(ctx)
+			}
+		}
+		run = func() error {
+			sr, err := r.Stream(ctx, msg, gopts...)
+			if err != nil {
+				return err
+			}
+			defer sr.Close()
+			for {
+				m, err := sr.Recv()
+				if err == io.EOF {
+					return nil
+				}
+				if err != nil {
+					return err
+				}
+				keys := make([]string, 0, len(m))
+				for k := range m {
+					keys = append(keys, k)
+				}
+				sort.Strings(keys)
+				for _, k := range keys {
+					if l, ok := m[k].([]*schema.Message); ok {
+						see("output["+k+"]", l)
+					}
+				}
+			}
+		}
+	default: // copy
+		run = func() error {
+			sr, err := tn.Stream(ctx, msg, nopts...)
+			if err != nil {
+				return err
+			}
+			var first error
+			for i, cp := range sr.Copy(2) {
+				out, err := compose.VerifConcatStreamReader(cp)
+				if err != nil {
+					if first == nil {
+						first = err
+					}
+					continue
+				}
+				see(fmt.Sprintf("copy-%d", i), out)
+			}
+			return first
+		}
+	}
+	if err != nil {
+		one.Class, one.ErrMsg = "setup", short(err.Error())
+		return []RunObs{one}
+	}
+
+	var runErr error
+	p, hung := guarded(func() { runErr = run() })
+	var out []RunObs
+	switch {
+	case hung:
+		one.Class = "hang"
+		out = []RunObs{one}
+	case p != nil:
+		one.Class, one.ErrMsg = panicClass(p), short(fmt.Sprint(p))
+		out = []RunObs{one}
+	case runErr != nil:
+		one.Class, one.Err, one.ErrMsg, one.ErrAs = "err", classify(runErr), short(runErr.Error()), unwraps(runErr)
+		out = []RunObs{one}
+	default:
+		mu.Lock()
+		sort.SliceStable(views, func(i, j int) bool { return views[i].who < views[j].who })
+		for _, v := range views {
+			o := mk(v.who)
+			o.Class, o.CCls, o.CMsgs = "chunks", "msgs", v.msgs
+			for pos, m := range v.msgs {
+				if m != nil {
+					o.Chunks = append(o.Chunks, Chunk{pos, m.Content, m.ID})
+				}
+			}
+			out = append(out, o)
+		}
+		mu.Unlock()
+		if len(out) == 0 { // nobody was handed anything
+			one.Class = "unclassified"
+			out = []RunObs{one}
+		}
+	}
+	rc.settle(&out[0], c)
+	for i := range out {
+		out[i].Pi, out[i].Exec, out[i].Leaked = out[0].Pi, out[0].Exec, out[0].Leaked
+	}
+	return out
 }
 
 // ---------------------------------------------------------------- Gallina printing
@@ -1584,7 +1825,11 @@ func msgsEqual(a, b []*Msg) bool {
 func (c *Case) oracle(o *RunObs) (string, string) {
 	s := c.spec(o.Mode != "invoke")
 	tag := o.Mode + "/" + o.Host
-	if o.Entry != "" {
+	fan := strings.HasPrefix(o.Entry, "fan:")
+	switch {
+	case fan:
+		tag += "(the node's stream has several consumers, " + o.Entry + ")"
+	case o.Entry != "":
 		tag += "(" + o.Entry + fmt.Sprintf(", the message arrives in %d chunks)", len(c.messageChunks()))
 	}
 	switch o.Class {
@@ -1621,6 +1866,9 @@ func (c *Case) oracle(o *RunObs) (string, string) {
 		if !found {
 			return fmt.Sprintf("%s: execution %v matches no call (name, arguments, call id in ctx, tool options)", tag, x), "exec-foreign"
 		}
+	}
+	if o.CAgain != "" {
+		return fmt.Sprintf("%s: the framework's concatenation of the received frames gave %s; concatenating the same frames once more (a second consumer of the copied stream) gives %s", tag, js(o.CMsgs), o.CAgain), "stream-concat-not-repeatable"
 	}
 	failing := s.pre || len(s.errs) > 0
 	if !s.inDomain {
@@ -1691,6 +1939,9 @@ func (c *Case) oracle(o *RunObs) (string, string) {
 				return fmt.Sprintf("%s: chunks of position %d carry different ids", tag, ch.Pos), "stream-id"
 			}
 			got[ch.Pos].Content += ch.Content
+		}
+		if fan && !msgsEqual(got, s.msgs) {
+			return fmt.Sprintf("%s: this consumer received %s, expected (the Invoke answer) %s", tag, js(got), js(s.msgs)), "stream-concat-differs"
 		}
 		if !msgsEqual(got, s.msgs) {
 			return fmt.Sprintf("%s: chunks concatenate to %s, expected %s", tag, js(got), js(s.msgs)), "stream-concat-differs"
@@ -1904,6 +2155,7 @@ func genCase(r *lib.Rng, tier string) *Case {
 	if r.Chance(1, 50) {
 		c.Calls = nil
 	}
+	c.Fan = r.Pick([]string{"branch", "fanout", "copy", "branch", "fanout", ""})
 	return c
 }
 
@@ -1935,6 +2187,11 @@ func (engine) Decode(raw json.RawMessage) (any, error) {
 	if c.GraphKind != "" && c.GraphKind != "workflow" && c.GraphKind != "nested" {
 		return nil, fmt.Errorf("graph_kind %q", c.GraphKind)
 	}
+	switch c.Fan {
+	case "", "branch", "fanout", "copy":
+	default:
+		return nil, fmt.Errorf("fan %q", c.Fan)
+	}
 	lists := [][]ToolDef{c.Tools}
 	for _, o := range c.optSeq() {
 		if o.List != nil {
@@ -1952,7 +2209,7 @@ func (engine) Decode(raw json.RawMessage) (any, error) {
 }
 
 var runPlan = [][3]string{{"invoke", "standalone"}, {"stream", "standalone"}, {"invoke", "graph"}, {"stream", "graph"}, {"concat", "graph"},
-	{"invoke", "shared"}, {"stream", "shared"}, {"concat", "graph", "collect"}, {"stream", "graph", "transform"}}
+	{"invoke", "shared"}, {"stream", "shared"}, {"concat", "graph", "collect"}, {"stream", "graph", "transform"}, {"concat", "graph", "fan"}}
 
 // failures observed in an earlier execution of the same case: a schedule-dependent failure (a
 // result published after the waiter was released, ...) need not show in every execution, and
@@ -2065,6 +2322,31 @@ func (engine) runCase(c *Case) lib.Result {
 			sendable = false
 			continue
 		}
+		if p[2] == "fan" {
+			if c.Fan == "" {
+				continue
+			}
+			at("concat/" + c.Fan + " (several consumers of the node's stream)")
+			for _, o := range runFan(c) {
+				obs = append(obs, o)
+				if o.Class == "panic" && o.Host == "standalone" {
+					continue // the inline task's panic reaches the caller of a standalone call: recorded, not compared
+				}
+				if t := o.coq(); t != "" {
+					terms = append(terms, t)
+				} else {
+					sendable = false
+				}
+				if res.Oracle == "" {
+					res.Oracle, res.Sig = c.oracle(&o)
+				}
+			}
+			if res.Oracle != "" {
+				sendable = false
+				break
+			}
+			continue
+		}
 		if p[2] != "" && c.InputSplit == 0 {
 			continue
 		}
@@ -2166,6 +2448,7 @@ func (engine) runCase(c *Case) lib.Result {
 	}
 	res.Tags = append(res.Tags, "graph-host:"+map[string]string{"": "graph", "workflow": "workflow", "nested": "nested-graph"}[c.GraphKind])
 	res.Tags = append(res.Tags, "entries:collect+transform:"+[]string{"not-run", "one-chunk", "calls-over-two-chunks", "arguments-cut-in-two"}[c.InputSplit])
+	res.Tags = append(res.Tags, "stream-consumers:"+map[string]string{"": "one", "branch": "branch-condition+selected-node", "fanout": "two-successors", "copy": "StreamReader.Copy(2)"}[c.Fan])
 	if malformed > 0 {
 		res.Tags = append(res.Tags, "malformed:arguments")
 	}
